@@ -340,8 +340,7 @@ section siteCanon
 open Ptn.Ein Ptn.C17 Ptn.C17.RTree Ptn.C05.Disc Ptn.C06.Gauge Ptn.C03
 
 /-- **At every site update of a time step the doubled tree around the update site is canonical in index form.**
-Every well-formed tree `t`, each scheme (the two-site events have no value-level step, so the statement is about
-the one-site schemes), `k` time steps, `dim` any dimensions, any commutative semiring and conjugation.  Start: a
+Every well-formed tree `t`, each scheme, `k` time steps, `dim` any dimensions, any commutative semiring and conjugation.  Start: a
 well-formed valued network `N0` containing the nodes of `t` whose bonds have one dimension, with a record `dir`
 canonical at the first node `s` of the sweep and true of `N0` (`GaugeInv`: every recorded node is an isometry in
 index form toward the bond to the recorded neighbour - what `canonical_form_isometric_tree` of C03 proves after
@@ -379,6 +378,39 @@ theorem tdvp_update_site_kids_canon {R : Type} [CommSemiring R] (dim : Nat → N
   obtain ⟨r, hr1, hr2, hr3, up, dn, h1, h2, h3, h4, h5, h6⟩ :=
     site_canon_of_record dim cj hwf hv' hcan hI' (fun n hn => hI.ids ▸ hids n hn)
   exact ⟨hI.wf, hI.ids, hv', r, hr1, hr2, hr3, up, dn, h1, h2, h3, h4, h5, h6⟩
+
+/-- **Before EVERY event of a time step (site, link and two-site updates, centre moves) the doubled tree around the
+node the event starts from is canonical in index form** - the general form of `tdvp_update_site_kids_canon`, all
+three schemes (the value-level two-site step: `VStep.two`, see `notes/C07.md`).  `c` is the machine's centre before
+the event `e`: `e` starts there (`gpre`), and the conclusions of `tdvp_update_site_kids_canon` hold with `v := c`. -/
+theorem tdvp_event_centre_kids_canon {R : Type} [CommSemiring R] (dim : Nat → Nat) (cj : R → R)
+    (t : RTree) (hwf : t.WF) (sch : Scheme) (hdef : sch.Defined t) :
+    ∃ u s evs, updatePath t = some u ∧ u.head? = some s ∧ sch.events t = some evs ∧
+      ∀ (dir : Rec) (N0 : VNet R), CanonAt t dir s → N0.WF → BondDims dim N0 → (∀ n ∈ ids t, n ∈ N0.ids) →
+        GaugeInv dim cj N0 dir →
+      ∀ (k : Nat) (p q : List DEv) (e : DEv) (N : VNet R),
+        (List.replicate k evs).flatten = p ++ e :: q → VRun dim cj N0 p N →
+        gpre t (grun ⟨s, dir⟩ p).centre e = true ∧ N.WF ∧ N.ids = N0.ids ∧
+        ∃ r : RTree, reroot (grun ⟨s, dir⟩ p).centre [] t = some r ∧ r.rid = (grun ⟨s, dir⟩ p).centre ∧
+          (ids r).Perm (ids t) ∧
+          ∃ up dn : Nat → Nat, (∀ e ∈ edges r, EdgeOK dim cj N up dn e.1 e.2) ∧
+            (kidsOf cj N up dn r.kids).Canon (ddim dim) ∧ (centreOf cj N up dn r).Canon (ddim dim) ∧
+            (centreOf cj N up dn r).labels.Nodup ∧
+            ((centreOf cj N up dn r).phys ++ (kidsOf cj N up dn r.kids).pairs).Perm
+              ((N.legs (grun ⟨s, dir⟩ p).centre).map dbl) ∧
+            ∀ σ, netValue (ddim dim) (centreOf cj N up dn r).normBinds ((ids t).flatMap (nodeLeaves cj N)) σ =
+              netValue (ddim dim) ((N.legs (grun ⟨s, dir⟩ p).centre).map dbl)
+                [ketT (N.tens (grun ⟨s, dir⟩ p).centre), braT cj (N.tens (grun ⟨s, dir⟩ p).centre)] σ := by
+  obtain ⟨u, s, evs, hu, hs, _, hev, hw⟩ := scheme_walk t hwf sch hdef
+  refine ⟨u, s, evs, hu, hs, hev, ?_⟩
+  intro dir N0 hc hwf0 hbd hids hinv k p q e N hsplit hr
+  obtain ⟨hpre, hcan, hI⟩ := net_canonical_at_event (st := ⟨s, dir⟩) (ids0 := N0.ids) hwf
+    (walk_replicate hw k) hc ⟨hwf0, hbd, rfl, hinv⟩ hsplit hr
+  have hv' := gpre_centre_mem hpre
+  have hI' : VInv dim cj N.ids N (grun ⟨s, dir⟩ p).dir := ⟨hI.wf, hI.bd, rfl, hI.inv⟩
+  obtain ⟨r, hr1, hr2, hr3, up, dn, h1, h2, h3, h4, h5, h6⟩ :=
+    site_canon_of_record dim cj hwf hv' hcan hI' (fun n hn => hI.ids ▸ hids n hn)
+  exact ⟨hpre, hI.wf, hI.ids, r, hr1, hr2, hr3, up, dn, h1, h2, h3, h4, h5, h6⟩
 
 open Matrix NormedSpace in
 /-- **Every one-site update of a TDVP time step conserves the norm** - no canonical-form hypothesis other than the
